@@ -1,0 +1,62 @@
+//go:build verif
+
+package hh
+
+import (
+	"sort"
+	"time"
+
+	"github.com/influxdata/influxdb/toml"
+)
+
+// Thin exported wrappers over the unexported parts of Service for the /verif correspondence
+// harness (consumer side of the hinted-handoff queue). No behaviour of their own.
+
+// VerifProc names one processor of the service's map.
+type VerifProc struct {
+	Node, Shard uint64
+	P           *NodeProcessor
+}
+
+// VerifProcessors lists the processors of the map, sorted by (node, shard).
+func (s *Service) VerifProcessors() []VerifProc {
+	s.mu.RLock()
+	defer s.mu.RUnlock()
+	var out []VerifProc
+	for n, m := range s.processors {
+		for sh, p := range m {
+			out = append(out, VerifProc{n, sh, p})
+		}
+	}
+	sort.Slice(out, func(i, j int) bool {
+		if out[i].Node != out[j].Node {
+			return out[i].Node < out[j].Node
+		}
+		return out[i].Shard < out[j].Shard
+	})
+	return out
+}
+
+// VerifSetPurgeInterval sets cfg.PurgeInterval (read by purgeInactiveProcessors when it starts).
+func (s *Service) VerifSetPurgeInterval(d time.Duration) {
+	s.mu.Lock()
+	defer s.mu.Unlock()
+	s.cfg.PurgeInterval = toml.Duration(d)
+}
+
+// VerifStartPurger starts purgeInactiveProcessors with the given closing channel.
+func (s *Service) VerifStartPurger(closing <-chan struct{}) {
+	s.wg.Add(1)
+	go s.purgeInactiveProcessors(closing)
+}
+
+// VerifBarrier returns once no purge pass holds the service lock.
+func (s *Service) VerifBarrier() {
+	s.mu.Lock()
+	s.mu.Unlock() //nolint
+}
+
+// VerifShardDir is the directory of one processor.
+func (s *Service) VerifShardDir(nodeID, shardID uint64) string {
+	return s.pathforNodeShard(nodeID, shardID)
+}
